@@ -1350,7 +1350,62 @@ func ruleC10Source(p *Program, r *Run) {
 		}
 		return ok, why
 	})
-	r.Floor("C10/source", 2)
+	// the compiler: the string handed to the parser is the one the spans are later applied to (implicit column names
+	// are slices of it, error positions are computed in it)
+	{
+		pq := p.PQL
+		parse := FuncObj(pkg, p.MustFunc(pkg, "Parse"))
+		for _, fd := range AllFuncs(pq) {
+			var calls []*ast.CallExpr
+			ast.Inspect(fd.Body, func(x ast.Node) bool {
+				if call, ok := x.(*ast.CallExpr); ok && Callee(info, call) == parse && len(call.Args) == 1 {
+					calls = append(calls, call)
+				}
+				return true
+			})
+			if len(calls) == 0 {
+				continue
+			}
+			fn := FuncName(pq, fd)
+			r.Saw(fn)
+			// the string parameter of the function
+			var param types.Object
+			for _, f := range fd.Type.Params.List {
+				for _, nm := range f.Names {
+					if TypeStr(info.TypeOf(f.Type)) == "string" && param == nil {
+						param = info.Defs[nm]
+					}
+				}
+			}
+			for i, call := range calls {
+				key := fmt.Sprintf("%s call #%d of parser.Parse is given the caller's string", fn, i+1)
+				ok := param != nil && p.neverReassigned(param) && objOf(info, p.Resolve(call.Args[0])) == param
+				// every context and error built here records that same string
+				why := "the parser is given " + exprStr(call.Args[0]) + ", not the source parameter itself: the spans it records are offsets into a different string than the one the compiler slices column names from and computes error positions in"
+				if ok {
+					for _, root := range p.regionOf(pq, fd.Body) {
+						ast.Inspect(root, func(x ast.Node) bool {
+							cl, isLit := x.(*ast.CompositeLit)
+							if !isLit {
+								return true
+							}
+							if src := litField(info, cl, "source"); src != nil && StructOf(info.TypeOf(cl)) != nil {
+								if o := objOf(info, p.Resolve(src)); o != param {
+									if v, isVar := o.(*types.Var); !isVar || p.FuncAt(v.Pos()) == fd {
+										ok = false
+										why = "a context or error built by the compiler records " + exprStr(src) + " as its source, not the string that was parsed"
+									}
+								}
+							}
+							return true
+						})
+					}
+				}
+				r.Check(ok, "C10/source", key, p.Pos(call.Pos()), "the source parameter, never reassigned, is parsed and recorded in every context", why)
+			}
+		}
+	}
+	r.Floor("C10/source", 3)
 }
 
 // ---- C12/args-once: a writer hands each child of its node to the recursive writers at most once per path.
@@ -1361,10 +1416,10 @@ func ruleC10Source(p *Program, r *Run) {
 // remembered; passing the same path again on the same path through the function is reported.
 type argsOnceClient struct {
 	BaseClient
-	p    *Program
-	g    *grammar
-	fn   string
-	node *types.Interface
+	p       *Program
+	g       *grammar
+	fn      string
+	node    *types.Interface
 	reaches map[*types.Func]bool // functions from which the recursive expression writer can be reached
 }
 
@@ -1583,4 +1638,1069 @@ func ruleC12Growth(p *Program, r *Run) {
 	default:
 		r.Fail("C12/growth", key, p.Pos(store.Pos()), "the SQL text of a let value is written with the same scope it is then stored into and nothing bounds its size: a value that uses the previous name twice doubles the text (`let x1 = x0 + x0; let x2 = x1 + x1; ...`), so a few hundred bytes of source denote gigabytes of SQL and Compile does not return")
 	}
+}
+
+// ---- C07/list-order: the lists of a node hold the parsed elements in source order, each once.
+//
+// Every list-of-nodes field of a syntax-tree node (Operators, Cols, Terms, Props, Args, ...) is only ever given:
+// nothing, a literal, an empty make, append(<the list so far>, <elements>), the result of a production (a method of
+// the parser), or a local list built the same way. Nothing sorts, reverses, compacts, deletes from or stores into
+// the elements of such a list: a tree whose lists are reordered or deduplicated is not the tree of the program.
+func ruleC07ListOrder(p *Program, r *Run) {
+	pkg := p.Parser
+	info := pkg.TypesInfo
+	node := p.Iface(pkg, "Node")
+	isNodeList := func(t types.Type) bool {
+		if t == nil {
+			return false
+		}
+		sl, ok := t.Underlying().(*types.Slice)
+		if !ok {
+			return false
+		}
+		el := sl.Elem()
+		return types.Implements(el, node) || types.Implements(types.NewPointer(el), node)
+	}
+	isNodeField := func(x ast.Expr) bool {
+		f := selField(info, x)
+		if f == nil || !isNodeList(f.Type()) {
+			return false
+		}
+		sel := ast.Unparen(x).(*ast.SelectorExpr)
+		bt := info.TypeOf(sel.X)
+		if ptr, ok := bt.(*types.Pointer); ok {
+			bt = ptr.Elem()
+		}
+		return types.Implements(types.NewPointer(bt), node) || types.Implements(bt, node)
+	}
+	var inOrder func(x ast.Expr, depth int) bool
+	inOrder = func(x ast.Expr, depth int) bool {
+		x = ast.Unparen(x)
+		if depth > 6 {
+			return false
+		}
+		switch v := x.(type) {
+		case *ast.Ident:
+			if isNilIdent(info, v) {
+				return true
+			}
+			return p.allDefsAre(v, func(d ast.Expr) bool {
+				if id, ok := d.(*ast.Ident); ok && objOf(info, id) == objOf(info, v) {
+					return false
+				}
+				return inOrder(d, depth+1)
+			})
+		case *ast.CompositeLit:
+			return true
+		case *ast.SelectorExpr:
+			return isNodeField(v) // the list so far (of this or another node under construction)
+		case *ast.CallExpr:
+			if IsBuiltinCall(info, v, "make") {
+				if len(v.Args) >= 2 {
+					n, ok := constInt(info, v.Args[1])
+					return ok && n == 0
+				}
+				return false
+			}
+			if IsBuiltinCall(info, v, "append") {
+				if len(v.Args) == 0 {
+					return false
+				}
+				base := ast.Unparen(v.Args[0])
+				okBase := inOrder(base, depth+1)
+				if id, isID := base.(*ast.Ident); isID && !okBase {
+					// appending to the local list itself: decided by its other definitions
+					okBase = objOf(info, id) != nil
+				}
+				if !okBase {
+					return false
+				}
+				if v.Ellipsis.IsValid() {
+					return inOrder(v.Args[len(v.Args)-1], depth+1)
+				}
+				return true
+			}
+			f := Callee(info, v)
+			if f == nil {
+				return false
+			}
+			if f.Pkg() != nil && f.Pkg().Path() == "slices" && (f.Name() == "Clip" || f.Name() == "Clone" || f.Name() == "Grow") && len(v.Args) >= 1 {
+				return inOrder(v.Args[0], depth+1)
+			}
+			// a production: a method of the parser that returns the list it parsed
+			if sig := f.Type().(*types.Signature); sig.Recv() != nil && strings.HasSuffix(TypeStr(sig.Recv().Type()), "parser.parser") {
+				return true
+			}
+		}
+		return false
+	}
+	n := 0
+	for _, fd := range AllFuncs(pkg) {
+		fn := FuncName(pkg, fd)
+		k := 0
+		ast.Inspect(fd.Body, func(nd ast.Node) bool {
+			switch v := nd.(type) {
+			case *ast.AssignStmt:
+				for i, l := range v.Lhs {
+					l = ast.Unparen(l)
+					// X.F[i] = e
+					if ix, ok := l.(*ast.IndexExpr); ok && isNodeField(ix.X) {
+						n++
+						k++
+						r.Saw(fn)
+						r.Fail("C07/list-order", fmt.Sprintf("%s store #%d into an element of %s", fn, k, exprStr(ix.X)), p.Pos(v.Pos()), "an element of a node list is overwritten: the list no longer holds the parsed elements in source order, each once")
+						continue
+					}
+					if !isNodeField(l) || i >= len(v.Rhs) && len(v.Rhs) != 1 {
+						continue
+					}
+					n++
+					k++
+					r.Saw(fn)
+					key := fmt.Sprintf("%s store #%d to %s", fn, k, exprStr(l))
+					var rhs ast.Expr
+					if len(v.Rhs) == len(v.Lhs) {
+						rhs = v.Rhs[i]
+					} else {
+						rhs = v.Rhs[0]
+					}
+					r.Check(inOrder(rhs, 0), "C07/list-order", key, p.Pos(v.Pos()), "the list so far extended by what was just parsed (or the list a production returned)", "the list is replaced by "+exprStr(rhs)+", which is not the list so far extended by the elements just parsed: elements may be reordered, dropped or duplicated relative to the source")
+				}
+			case *ast.CompositeLit:
+				// &CallExpr{Args: args}: a list field initialised in a literal
+				st := StructOf(info.TypeOf(v))
+				if st == nil || !(types.Implements(types.NewPointer(info.TypeOf(v)), node) || types.Implements(info.TypeOf(v), node)) {
+					return true
+				}
+				for _, el := range v.Elts {
+					kv, ok := el.(*ast.KeyValueExpr)
+					if !ok {
+						continue
+					}
+					fld, _ := objOf(info, kv.Key).(*types.Var)
+					if fld == nil || !isNodeList(fld.Type()) {
+						continue
+					}
+					n++
+					k++
+					r.Saw(fn)
+					r.Check(inOrder(kv.Value, 0), "C07/list-order", fmt.Sprintf("%s literal #%d sets %s", fn, k, fld.Name()), p.Pos(kv.Pos()), "the list a production returned (or one built by appending what was parsed)", "the list field is initialised with "+exprStr(kv.Value)+", which is not a list built by appending the parsed elements in order")
+				}
+			case *ast.CallExpr:
+				f := Callee(info, v)
+				if f == nil || f.Pkg() == nil {
+					return true
+				}
+				reorders := false
+				switch f.Pkg().Path() {
+				case "sort":
+					reorders = true
+				case "slices":
+					switch {
+					case strings.HasPrefix(f.Name(), "Sort"), strings.HasPrefix(f.Name(), "Compact"), strings.HasPrefix(f.Name(), "Delete"), f.Name() == "Reverse", f.Name() == "Insert", f.Name() == "Replace":
+						reorders = true
+					}
+				}
+				if !reorders {
+					return true
+				}
+				for _, a := range v.Args {
+					if isNodeList(info.TypeOf(a)) {
+						n++
+						k++
+						r.Saw(fn)
+						r.Fail("C07/list-order", fmt.Sprintf("%s call #%d of %s on %s", fn, k, f.FullName(), exprStr(a)), p.Pos(v.Pos()), "a list of tree nodes is handed to "+f.FullName()+": its elements no longer appear in source order, each once")
+					}
+				}
+			}
+			return true
+		})
+	}
+	r.Floor("C07/list-order", 15)
+}
+
+// ---- C11/unshared: the parser builds a tree - no node is reachable through two fields.
+//
+// Every node stored into a node-typed field of a node (by assignment, in a literal, or appended to a node list) is
+// one the storing production has just obtained: a literal, the result of a production or a variable holding one, a
+// parameter handed in by the caller that parsed it, or the result of a helper all of whose returns are of these
+// kinds. A value read out of another node's field (x.Parts[0]) is already in the tree; storing it again makes the
+// traversal visit it twice, the first time before its parent.
+func ruleC11Unshared(p *Program, r *Run) {
+	pkg := p.Parser
+	info := pkg.TypesInfo
+	node := p.Iface(pkg, "Node")
+	isNodeT := func(t types.Type) bool {
+		if t == nil {
+			return false
+		}
+		if _, isSlice := t.Underlying().(*types.Slice); isSlice {
+			return false
+		}
+		return types.Implements(t, node)
+	}
+	isNodeStruct := func(t types.Type) bool {
+		if t == nil {
+			return false
+		}
+		if ptr, ok := t.(*types.Pointer); ok {
+			t = ptr.Elem()
+		}
+		return StructOf(t) != nil && (types.Implements(types.NewPointer(t), node) || types.Implements(t, node))
+	}
+	visiting := map[*ast.FuncDecl]bool{}
+	var fresh func(x ast.Expr, fd *ast.FuncDecl, depth int) bool
+	fresh = func(x ast.Expr, fd *ast.FuncDecl, depth int) bool {
+		x = ast.Unparen(x)
+		if depth > 6 {
+			return false
+		}
+		switch v := x.(type) {
+		case *ast.Ident:
+			if isNilIdent(info, v) {
+				return true
+			}
+			o, _ := objOf(info, v).(*types.Var)
+			if o == nil {
+				return false
+			}
+			if fd != nil && paramIndex(info, fd, o) >= 0 {
+				return true // handed in by the caller, which obtained it
+			}
+			if fd != nil && fd.Recv != nil && len(fd.Recv.List) == 1 && len(fd.Recv.List[0].Names) == 1 && info.Defs[fd.Recv.List[0].Names[0]] == types.Object(o) {
+				return true // the node a method was called on, wrapped into a new node (id.AsQualified())
+			}
+			return p.allDefsAre(v, func(d ast.Expr) bool {
+				if id, ok := d.(*ast.Ident); ok && objOf(info, id) == types.Object(o) {
+					return false
+				}
+				return fresh(d, fd, depth+1)
+			})
+		case *ast.CompositeLit:
+			return true
+		case *ast.UnaryExpr:
+			if v.Op == token.AND {
+				_, isLit := ast.Unparen(v.X).(*ast.CompositeLit)
+				return isLit
+			}
+		case *ast.TypeAssertExpr:
+			return fresh(v.X, fd, depth+1)
+		case *ast.CallExpr:
+			if tv, ok := info.Types[v.Fun]; ok && tv.IsType() && len(v.Args) == 1 {
+				return fresh(v.Args[0], fd, depth+1)
+			}
+			f := Callee(info, v)
+			if f == nil {
+				// a production called through a table of function values: func(p *parser, ...) (node, error)
+				if sig, ok := info.TypeOf(v.Fun).Underlying().(*types.Signature); ok && sig.Params().Len() >= 1 && strings.HasSuffix(TypeStr(sig.Params().At(0).Type()), "parser.parser") {
+					return true
+				}
+				return false
+			}
+			if sig := f.Type().(*types.Signature); sig.Recv() != nil && strings.HasSuffix(TypeStr(sig.Recv().Type()), "parser.parser") {
+				return true // a production
+			}
+			decl, dpkg := p.DeclOf(f)
+			if decl == nil || decl.Body == nil || dpkg != pkg || visiting[decl] {
+				return false
+			}
+			visiting[decl] = true
+			defer delete(visiting, decl)
+			ok, rets := true, 0
+			ast.Inspect(decl.Body, func(n ast.Node) bool {
+				if _, nested := n.(*ast.FuncLit); nested {
+					return false
+				}
+				if ret, isRet := n.(*ast.ReturnStmt); isRet && len(ret.Results) >= 1 {
+					rets++
+					if !fresh(ret.Results[0], decl, depth+1) {
+						ok = false
+					}
+				}
+				return true
+			})
+			return ok && rets > 0
+		}
+		return false
+	}
+	n := 0
+	for _, fd := range AllFuncs(pkg) {
+		fn := FuncName(pkg, fd)
+		k := 0
+		check := func(at ast.Node, what string, val ast.Expr) {
+			if !isNodeT(info.TypeOf(val)) {
+				return
+			}
+			n++
+			k++
+			r.Saw(fn)
+			key := fmt.Sprintf("%s node #%d stored %s", fn, k, what)
+			r.Check(fresh(val, fd, 0), "C11/unshared", key, p.Pos(at.Pos()), "a node the production has just obtained (literal, production result, parameter)", "the value stored ("+exprStr(val)+") is read out of a node that is already in the tree (or its origin cannot be decided): the same node would be reachable through two fields, so the traversal visits it twice and the tree is not a tree")
+		}
+		ast.Inspect(fd.Body, func(nd ast.Node) bool {
+			switch v := nd.(type) {
+			case *ast.AssignStmt:
+				if len(v.Lhs) != len(v.Rhs) {
+					return true // x.F, err = p.production(): decided by the callee being a production
+				}
+				for i, l := range v.Lhs {
+					sel, ok := ast.Unparen(l).(*ast.SelectorExpr)
+					if !ok || selField(info, sel) == nil || !isNodeStruct(info.TypeOf(sel.X)) {
+						continue
+					}
+					// appended elements
+					if call, isCall := ast.Unparen(v.Rhs[i]).(*ast.CallExpr); isCall && IsBuiltinCall(info, call, "append") && !call.Ellipsis.IsValid() {
+						for _, a := range call.Args[1:] {
+							check(v, "into the list "+exprStr(l), a)
+						}
+						continue
+					}
+					check(v, "to "+exprStr(l), v.Rhs[i])
+				}
+			case *ast.CompositeLit:
+				if !isNodeStruct(info.TypeOf(v)) {
+					return true
+				}
+				for _, el := range v.Elts {
+					kv, ok := el.(*ast.KeyValueExpr)
+					if !ok {
+						continue
+					}
+					if inner, isLit := ast.Unparen(kv.Value).(*ast.CompositeLit); isLit {
+						// a list literal: its elements
+						for _, e2 := range inner.Elts {
+							check(kv, "in the literal field "+exprStr(kv.Key), e2)
+						}
+						continue
+					}
+					check(kv, "in the literal field "+exprStr(kv.Key), kv.Value)
+				}
+			}
+			return true
+		})
+	}
+	r.Floor("C11/unshared", 20)
+}
+
+// ---- C12/errlist: collecting parse errors costs a constant amount of work per error.
+//
+// joinErrors is called once per production and per error; the list it accumulates is only ever appended to and
+// handed to errors.Join. A loop over the list collected so far (to look for duplicates, to sort, to render the
+// messages) inside joinErrors or a helper it hands the list to makes the cost of n errors quadratic or worse, and
+// rendering a message walks the source: an error-dense input of a few hundred bytes then takes minutes.
+func ruleC12ErrList(p *Program, r *Run) {
+	pkg := p.Parser
+	info := pkg.TypesInfo
+	jfd := p.FuncDecl(pkg, "joinErrors")
+	if jfd == nil {
+		return
+	}
+	fn := FuncName(pkg, jfd)
+	r.Saw(fn)
+	isErrList := func(t types.Type) bool {
+		sl, ok := t.Underlying().(*types.Slice)
+		return ok && TypeStr(sl.Elem()) == "error"
+	}
+	// the accumulators: []error variables of joinErrors that are appended to, and the parameters of helpers they
+	// are passed to
+	acc := map[types.Object]bool{}
+	regionFns := []*ast.FuncDecl{jfd}
+	seen := map[*ast.FuncDecl]bool{jfd: true}
+	for i := 0; i < len(regionFns) && i < 8; i++ {
+		fd := regionFns[i]
+		ast.Inspect(fd.Body, func(n ast.Node) bool {
+			switch v := n.(type) {
+			case *ast.AssignStmt:
+				for j, l := range v.Lhs {
+					if j < len(v.Rhs) {
+						// errorList = append(errorList, err) / errorList = helper(errorList, err)
+						if call, ok := ast.Unparen(v.Rhs[j]).(*ast.CallExpr); ok && len(call.Args) >= 1 {
+							if o := objOf(info, l); o != nil && isErrList(o.Type()) && fd == jfd && objOf(info, call.Args[0]) == o {
+								acc[o] = true
+							}
+						}
+					}
+				}
+			}
+			return true
+		})
+		ast.Inspect(fd.Body, func(n ast.Node) bool {
+			call, ok := n.(*ast.CallExpr)
+			if !ok {
+				return true
+			}
+			decl, dpkg := p.DeclOf(Callee(info, call))
+			if decl == nil || decl.Body == nil || dpkg != pkg {
+				return true
+			}
+			k := 0
+			for _, f := range decl.Type.Params.List {
+				for _, nm := range f.Names {
+					if k < len(call.Args) && acc[objOf(info, call.Args[k])] {
+						acc[info.Defs[nm]] = true
+						if !seen[decl] {
+							seen[decl] = true
+							regionFns = append(regionFns, decl)
+						}
+					}
+					k++
+				}
+			}
+			return true
+		})
+	}
+	bad := ""
+	for _, fd := range regionFns {
+		ast.Inspect(fd.Body, func(n ast.Node) bool {
+			switch v := n.(type) {
+			case *ast.RangeStmt:
+				if acc[objOf(info, v.X)] && bad == "" {
+					bad = "a loop over the errors collected so far (" + exprStr(v.X) + ") at " + p.Pos(v.Pos())
+				}
+			case *ast.CallExpr:
+				if f := Callee(info, v); f != nil && f.Pkg() != nil && (f.Pkg().Path() == "sort" || f.Pkg().Path() == "slices" && f.Name() != "Clip" && f.Name() != "Grow") {
+					for _, a := range v.Args {
+						if acc[objOf(info, a)] && bad == "" {
+							bad = "the collected errors are handed to " + f.FullName() + " at " + p.Pos(v.Pos())
+						}
+					}
+				}
+			}
+			return true
+		})
+	}
+	if len(acc) == 0 {
+		bad = "no list of errors that is only appended to was found"
+	}
+	r.Check(bad == "", "C12/errlist", fn+" only appends to the list of errors", p.Pos(jfd.Pos()), "the accumulated list is appended to and joined, never searched", "collecting errors is no longer constant work per error: "+bad+" - with n errors in one source every call walks all earlier ones (and rendering an error's text walks the source), so an error-dense input of a few hundred bytes takes minutes")
+	r.Floor("C12/errlist", 1)
+}
+
+// ---- C13/all-operators: every operator of a pipeline reaches the SQL writer.
+//
+// The documented rejections (wrong argument counts, $left/$right outside a join, ...) are made while an operator's
+// expressions are written. An operator that the planning loop skips - because it is redundant, say - is never
+// written, so a program that breaks a rule inside it compiles. Decided on the path states of splitQueries: every
+// iteration of the loop over expr.Operators that goes round again (or leaves the loop normally) has stored the
+// operator of that iteration, or something built from it, into a subquery (or handed it to a helper/recursion).
+type allOpsClient struct {
+	BaseClient
+	InlinePure
+	fn     string
+	loop   ast.Stmt
+	opObjs map[types.Object]bool
+	tagX   ast.Expr // the operand of the type switch (expr.Operators[i] / the range value)
+	seen   int
+}
+
+func (c *allOpsClient) mentions(e *Engine, x ast.Node) bool {
+	found := false
+	ast.Inspect(x, func(n ast.Node) bool {
+		if id, ok := n.(*ast.Ident); ok {
+			if o := objOf(e.Info, id); o != nil && c.opObjs[o] {
+				found = true
+			}
+		}
+		if ex, ok := n.(ast.Expr); ok && c.tagX != nil && sameExpr(e.Info, ex, c.tagX) {
+			found = true
+		}
+		return !found
+	})
+	return found
+}
+
+func (c *allOpsClient) LoopHead(e *Engine, st *State, loop ast.Stmt) *State {
+	if loop == c.loop && len(e.Frames()) == 0 {
+		return st.WithExt("opstored", "")
+	}
+	return nil
+}
+
+func (c *allOpsClient) PostAssign(e *Engine, st *State, lhs, rhs []ast.Expr, _ ast.Stmt) *State {
+	if st.Ext("opstored") == "1" {
+		return nil
+	}
+	for i, l := range lhs {
+		switch ast.Unparen(l).(type) {
+		case *ast.SelectorExpr, *ast.IndexExpr:
+		default:
+			continue
+		}
+		var r ast.Expr
+		if len(rhs) == len(lhs) {
+			r = rhs[i]
+		} else if len(rhs) == 1 {
+			r = rhs[0]
+		}
+		if r != nil && c.mentions(e, r) {
+			return st.WithExt("opstored", "1")
+		}
+	}
+	return nil
+}
+
+func (c *allOpsClient) PreCall(e *Engine, st *State, call *ast.CallExpr, callee *types.Func) *State {
+	if st.Ext("opstored") == "1" || callee == nil || callee.Pkg() == nil || callee.Pkg().Path() != PathPQL {
+		return nil
+	}
+	// the operator (or a part of it) handed to a module function that builds subqueries from it
+	sig := callee.Type().(*types.Signature)
+	returnsSubq := false
+	for i := 0; i < sig.Results().Len(); i++ {
+		if strings.Contains(TypeStr(sig.Results().At(i).Type()), "subquery") {
+			returnsSubq = true
+		}
+	}
+	if !returnsSubq {
+		return nil
+	}
+	for _, a := range call.Args {
+		if c.mentions(e, a) {
+			return st.WithExt("opstored", "1")
+		}
+	}
+	return nil
+}
+
+func (c *allOpsClient) LoopBack(e *Engine, st *State, loop ast.Stmt) {
+	if loop != c.loop || len(e.Frames()) != 0 || !e.Reporting() {
+		return
+	}
+	c.seen++
+	ok := st.Ext("opstored") == "1"
+	key := c.fn + " every operator is planned"
+	e.Site("C13/all-operators", key, loop, ok, "each iteration that goes on has stored the operator (or something built from it) into a subquery")
+	if !ok {
+		e.Site("C13/all-operators", key, loop, false, "an iteration of the operator loop goes on without storing the operator anywhere: that operator is never written, so a rule broken inside it (a wrong argument count, $left outside a join) is not reported and the program compiles")
+	}
+}
+
+func ruleC13AllOperators(p *Program, r *Run) {
+	pkg := p.PQL
+	info := pkg.TypesInfo
+	fd := p.MustFunc(pkg, "splitQueries")
+	fn := FuncName(pkg, fd)
+	r.Saw(fn)
+	// the loop over the operators and the type switch on the operator inside it
+	var loop ast.Stmt
+	var ts *ast.TypeSwitchStmt
+	ast.Inspect(fd.Body, func(n ast.Node) bool {
+		if loop != nil {
+			return false
+		}
+		var body *ast.BlockStmt
+		switch l := n.(type) {
+		case *ast.ForStmt:
+			body = l.Body
+		case *ast.RangeStmt:
+			body = l.Body
+		default:
+			return true
+		}
+		for _, s := range body.List {
+			if t, ok := s.(*ast.TypeSwitchStmt); ok {
+				var x ast.Expr
+				switch a := t.Assign.(type) {
+				case *ast.AssignStmt:
+					x = a.Rhs[0].(*ast.TypeAssertExpr).X
+				case *ast.ExprStmt:
+					x = a.X.(*ast.TypeAssertExpr).X
+				}
+				if x != nil && TypeStr(info.TypeOf(x)) == "parser.TabularOperator" {
+					loop, ts = n.(ast.Stmt), t
+				}
+			}
+		}
+		return loop == nil
+	})
+	if loop == nil {
+		r.Fail("C13/all-operators", fn+" operator loop", p.Pos(fd.Pos()), "no loop with a type switch over the pipeline's operators found")
+		return
+	}
+	c := &allOpsClient{fn: fn, loop: loop, opObjs: map[types.Object]bool{}}
+	switch a := ts.Assign.(type) {
+	case *ast.AssignStmt:
+		c.tagX = a.Rhs[0].(*ast.TypeAssertExpr).X
+	case *ast.ExprStmt:
+		c.tagX = a.X.(*ast.TypeAssertExpr).X
+	}
+	for _, cl := range ts.Body.List {
+		if o := info.Implicits[cl]; o != nil {
+			c.opObjs[o] = true
+		}
+	}
+	if id, ok := ast.Unparen(c.tagX).(*ast.Ident); ok {
+		if o := objOf(info, id); o != nil {
+			c.opObjs[o] = true
+		}
+	}
+	e := NewEngine(p, pkg, fd, c)
+	e.Run(nil)
+	for _, m := range e.Errs {
+		r.Fail("C13/all-operators", fn+" engine", "-", m)
+	}
+	e.FlushSites(r)
+	if c.seen == 0 {
+		r.Fail("C13/all-operators", fn+" every operator is planned", p.Pos(loop.Pos()), "the operator loop never goes round on a feasible path")
+	}
+	r.Floor("C13/all-operators", 1)
+}
+
+// ---- C13/values-written: in the clause writer, a name from the source is only quoted directly where it is an
+// alias.
+//
+// Everything in value position (a projected column, a sort key, an operand) goes through the expression writer,
+// which substitutes bindings and rejects $left/$right outside a join; an identifier that the clause writer quotes
+// itself is neither substituted nor checked. Decided on the derived grammar of (*subquery).write and its helpers:
+// every quoted-identifier event is directly preceded, on every path, by a text ending in "AS" (the name given to
+// the value just written).
+func ruleC13ValuesWritten(p *Program, r *Run) {
+	g := p.Grammar()
+	pkg := p.PQL
+	wfd := p.MustFunc(pkg, "subquery.write")
+	fn := FuncName(pkg, wfd)
+	r.Saw(fn)
+	byID := map[int]*emitEvent{}
+	for _, ev := range g.events {
+		byID[ev.ID] = ev
+	}
+	type res struct {
+		ev  *emitEvent
+		bad string
+	}
+	seen := map[int]*res{}
+	var order []int
+	for _, o := range g.occs {
+		if o.Ev.Func != wfd || o.Ev.Kind != "Q" {
+			continue
+		}
+		rs := seen[o.Ev.ID]
+		if rs == nil {
+			rs = &res{ev: o.Ev}
+			seen[o.Ev.ID] = rs
+			order = append(order, o.Ev.ID)
+		}
+		prev := byID[o.Prev]
+		switch {
+		case prev == nil:
+			rs.bad = "nothing is written before it"
+		case prev.Kind != "T":
+			rs.bad = "it follows a " + prev.Kind + " event, not a text"
+		default:
+			if t := strings.ToUpper(strings.TrimSpace(prev.Text)); !(t == "AS" || strings.HasSuffix(t, " AS")) {
+				rs.bad = fmt.Sprintf("it follows the text %q", prev.Text)
+			}
+		}
+	}
+	sort.Ints(order)
+	for i, id := range order {
+		rs := seen[id]
+		what := "?"
+		if rs.ev.Arg != nil {
+			what = exprStr(rs.ev.Arg)
+		}
+		key := fmt.Sprintf("%s quoted name #%d (%s) is an alias", fn, i+1, what)
+		r.Check(rs.bad == "", "C13/values-written", key, p.Pos(rs.ev.Call.Pos()), "directly preceded by AS on every path", "a name from the source is quoted by the clause writer itself where it is not an alias ("+rs.bad+"): a value written this way bypasses the expression writer, so a binding of that name is not substituted and $left/$right is not rejected there")
+	}
+	r.Floor("C13/values-written", 4)
+}
+
+// ---- C04/whole: what is quoted is a name or value of the program as a whole.
+//
+// The sanitizers turn their argument into exactly one SQL token. That token stands for a PQL name or literal only
+// if the argument is that name or literal itself: a string field of a syntax-tree node, a slice of the source by a
+// recorded span, the name of a subquery, a constant, or a constant in front of one of these. An argument computed
+// from the content (strings.Cut, Split, Trim, case folding, slicing by a searched index) makes the number and
+// meaning of the tokens depend on the characters of the name.
+func ruleC04Whole(p *Program, r *Run) {
+	g := p.Grammar()
+	info := p.PQL.TypesInfo
+	node := p.Iface(p.Parser, "Node")
+	var whole func(x ast.Expr, depth int) (bool, string)
+	whole = func(x ast.Expr, depth int) (bool, string) {
+		x = ast.Unparen(x)
+		if depth > 6 {
+			return false, "definition chain too long"
+		}
+		if _, ok := constString(info, x); ok {
+			return true, ""
+		}
+		switch v := x.(type) {
+		case *ast.SelectorExpr:
+			f := selField(info, v)
+			if f == nil {
+				return false, exprStr(x) + " is not a field"
+			}
+			bt := info.TypeOf(v.X)
+			if ptr, ok := bt.(*types.Pointer); ok {
+				bt = ptr.Elem()
+			}
+			if types.Implements(types.NewPointer(bt), node) || types.Implements(bt, node) || strings.HasSuffix(TypeStr(bt), "pql.subquery") {
+				return true, ""
+			}
+			return false, exprStr(x) + " is not a field of a syntax-tree node or subquery"
+		case *ast.SliceExpr:
+			// source[span.Start:span.End]
+			if f := selField(info, v.X); f != nil && fldName(f) == "source" && v.Low != nil && v.High != nil {
+				lo, ok1 := ast.Unparen(v.Low).(*ast.SelectorExpr)
+				hi, ok2 := ast.Unparen(v.High).(*ast.SelectorExpr)
+				if ok1 && ok2 && lo.Sel.Name == "Start" && hi.Sel.Name == "End" && sameExpr(info, lo.X, hi.X) {
+					return true, ""
+				}
+			}
+			return false, "the text is cut by " + exprStr(x)
+		case *ast.BinaryExpr:
+			if v.Op == token.ADD {
+				if _, isC := constString(info, v.X); isC {
+					return whole(v.Y, depth+1)
+				}
+			}
+			return false, "the text is computed by " + exprStr(x)
+		case *ast.Ident:
+			o, _ := objOf(info, v).(*types.Var)
+			if o == nil {
+				return false, exprStr(x) + " is not a variable"
+			}
+			if fd := p.FuncAt(o.Pos()); fd != nil && paramIndex(info, fd, o) >= 0 {
+				// a parameter of a helper: what every caller passes
+				fn, _ := info.Defs[fd.Name].(*types.Func)
+				idx := paramIndex(info, fd, o)
+				n, why := 0, ""
+				for _, other := range AllFuncs(p.PQL) {
+					ast.Inspect(other.Body, func(m ast.Node) bool {
+						if call, ok := m.(*ast.CallExpr); ok && fn != nil && Callee(info, call) == fn && idx < len(call.Args) {
+							n++
+							if ok2, w := whole(call.Args[idx], depth+1); !ok2 && why == "" {
+								why = w
+							}
+						}
+						return true
+					})
+				}
+				if n == 0 {
+					return false, "no caller of " + fd.Name.Name + " found"
+				}
+				return why == "", why
+			}
+			why := ""
+			ok := p.allDefsAre(v, func(d ast.Expr) bool {
+				if id, isID := d.(*ast.Ident); isID && objOf(info, id) == types.Object(o) {
+					return false
+				}
+				ok2, w := whole(d, depth+1)
+				if !ok2 && why == "" {
+					why = w
+				}
+				return ok2
+			})
+			if !ok && why == "" {
+				why = exprStr(x) + " is assigned something other than a name or value of the program"
+			}
+			return ok, why
+		case *ast.CallExpr:
+			if f := Callee(info, v); f != nil && fnName(f) == "subqueryName" {
+				return true, ""
+			}
+			return false, "the text is the result of " + exprStr(v.Fun)
+		}
+		return false, "the text is computed by " + exprStr(x)
+	}
+	n := 0
+	cnt := map[string]int{}
+	for _, ev := range g.events {
+		if ev.Kind != "Q" && ev.Kind != "S" || ev.Arg == nil {
+			continue
+		}
+		if nm := declName(ev.Func); nm == "quoteIdentifier" || nm == "quoteSQLString" {
+			continue
+		}
+		n++
+		cnt[ev.FnName]++
+		r.Saw(ev.FnName)
+		ok, why := whole(ev.Arg, 0)
+		key := fmt.Sprintf("%s quotes %s (#%d)", ev.FnName, exprStr(ev.Arg), cnt[ev.FnName])
+		r.Check(ok, "C04/whole", key, p.Pos(ev.Call.Pos()), "a name or value of the program, quoted as a whole", "what is quoted is not a name or value of the program as written ("+why+"): the characters of the name decide what is quoted and into how many tokens, so the token does not decode to the value written in PQL")
+	}
+	r.Floor("C04/whole", 10)
+}
+
+// ---- C08/consumed: a production that reports success has accounted for the last token it read.
+//
+// A token read with next() is accounted for when a production is called after it (it introduced what follows), when
+// it is given back (prev(), or the position is restored), or when something of it (its span, its value) is stored or
+// returned. A success return reached straight after reading a token that is none of these has swallowed it: the
+// token is in no node of the tree, yet the parse succeeds - a trailing separator is silently accepted.
+type consumedClient struct {
+	BaseClient
+	InlinePredicates
+	fn       string
+	next     *types.Func
+	nfName   string // full name of isNotFound
+	commaKey string // constant key of TokenComma
+	byKey    string // constant key of TokenBy
+}
+
+// Stmt: what is known now about the token last read and about the production called after a separator.
+//   - the token is known to be a comma: it is a separator (remembered beyond the scope of its variable);
+//   - the production called after a separator is known to have found nothing: the separator dangles;
+//     known to have found something (or failed otherwise): the separator is accounted for;
+//   - a dangling separator is accounted for when the next token read is `by` (the one place the grammar allows it).
+func (c *consumedClient) Stmt(e *Engine, st *State, _ ast.Stmt) *State {
+	out := st
+	if tv := st.Ext("ctok"); tv != "" && tv != "_" {
+		if f := st.Get(tv + ".Kind"); f != nil && f.HasEq {
+			if f.Eq == c.commaKey && st.Ext("ctok:comma") != "1" {
+				out = out.WithExt("ctok:comma", "1")
+			}
+			if f.Eq == c.byKey && st.Ext("csep") != "" {
+				out = out.WithExt("csep", "").WithExt("csep:err", "")
+			}
+		}
+	}
+	if st.Ext("csep") == "pending" {
+		if ek := st.Ext("csep:err"); ek != "" {
+			nf := st.Get("call:" + c.nfName + "(" + ek + ")")
+			ef := st.Get(ek)
+			switch {
+			case nf != nil && nf.HasEq && nf.Eq == "true":
+				out = out.WithExt("csep", "dangling").WithExt("csep:err", "")
+			case nf != nil && nf.HasEq && nf.Eq == "false", ef != nil && ef.Nil == 1:
+				out = out.WithExt("csep", "").WithExt("csep:err", "")
+			}
+		}
+	}
+	if out != st {
+		return out
+	}
+	return nil
+}
+
+func (c *consumedClient) tokVar(st *State) string { return st.Ext("ctok") }
+
+// ScopeEnd: the same bookkeeping as Stmt, before the variables of a block are forgotten.
+func (c *consumedClient) ScopeEnd(e *Engine, st *State, _ ast.Node) *State { return c.Stmt(e, st, nil) }
+
+func (c *consumedClient) mentionsTok(e *Engine, st *State, x ast.Node) bool {
+	tv := c.tokVar(st)
+	if tv == "" || x == nil {
+		return false
+	}
+	found := false
+	ast.Inspect(x, func(n ast.Node) bool {
+		if id, ok := n.(*ast.Ident); ok {
+			if o := objOf(e.Info, id); o != nil && e.objKey(o) == tv {
+				found = true
+			}
+		}
+		return !found
+	})
+	return found
+}
+
+func (c *consumedClient) PostAssign(e *Engine, st *State, lhs, rhs []ast.Expr, _ ast.Stmt) *State {
+	orig := st
+	if len(rhs) == 1 && len(lhs) == 2 {
+		if call, ok := ast.Unparen(rhs[0]).(*ast.CallExpr); ok && Callee(e.Info, call) == c.next && len(e.Frames()) == 0 {
+			tk, okk := "", ""
+			if o := objOf(e.Info, lhs[0]); o != nil {
+				tk = e.objKey(o)
+			}
+			if o := objOf(e.Info, lhs[1]); o != nil {
+				okk = e.objKey(o)
+			}
+			if tk == "" {
+				tk = "_"
+			}
+			return st.WithExt("ctok", tk).WithExt("ctok:ok", okk).WithExt("ctok:at", e.P.Pos(call.Pos())).WithExt("ctok:comma", "")
+		}
+	}
+	// x, err := p.production() right after a separator: whether it found something decides about the separator
+	if st.Ext("csep") == "pending" && st.Ext("csep:err") == "" && len(rhs) == 1 && len(lhs) >= 1 {
+		if call, ok := ast.Unparen(rhs[0]).(*ast.CallExpr); ok {
+			if f := Callee(e.Info, call); f != nil && cursorOf(f) == "parser" {
+				if o := objOf(e.Info, lhs[len(lhs)-1]); o != nil && isErrorType(o.Type()) {
+					st = st.WithExt("csep:err", e.objKey(o))
+					if c.tokVar(st) == "" {
+						return st
+					}
+				}
+			}
+		}
+	}
+	// the position is put back to where it was before the separator
+	for _, l := range lhs {
+		if sel, ok := ast.Unparen(l).(*ast.SelectorExpr); ok && selName(sel) == "pos" && st.Ext("csep") != "" {
+			st = st.WithExt("csep", "").WithExt("csep:err", "")
+		}
+	}
+	// something of the token is stored
+	if c.tokVar(st) != "" {
+		for _, r := range rhs {
+			if c.mentionsTok(e, st, r) {
+				return st.WithExt("ctok", "")
+			}
+		}
+		// the position is put back
+		for _, l := range lhs {
+			if sel, ok := ast.Unparen(l).(*ast.SelectorExpr); ok && selName(sel) == "pos" {
+				return st.WithExt("ctok", "")
+			}
+		}
+	}
+	if st != orig {
+		return st
+	}
+	return nil
+}
+
+func (c *consumedClient) Visit(e *Engine, st *State, n ast.Node) *State {
+	if cl, ok := n.(*ast.CompositeLit); ok && c.tokVar(st) != "" && c.mentionsTok(e, st, cl) {
+		return st.WithExt("ctok", "")
+	}
+	return nil
+}
+
+func (c *consumedClient) PreCall(e *Engine, st *State, call *ast.CallExpr, callee *types.Func) *State {
+	if c.tokVar(st) == "" || callee == nil {
+		return nil
+	}
+	if callee == c.next {
+		return nil
+	}
+	if cursorOf(callee) == "parser" {
+		// a production or prev(): the token introduced what follows, or is given back
+		out := st.WithExt("ctok", "")
+		if st.Ext("ctok:comma") == "1" && fnName(callee) != "prev" {
+			out = out.WithExt("csep", "pending").WithExt("csep:err", "").WithExt("csep:at", st.Ext("ctok:at")).WithExt("ctok:comma", "")
+		}
+		return out
+	}
+	for _, a := range call.Args {
+		if c.mentionsTok(e, st, a) {
+			return st.WithExt("ctok", "")
+		}
+	}
+	return nil
+}
+
+func (c *consumedClient) Return(e *Engine, st *State, ret *ast.ReturnStmt) {
+	if !e.Reporting() || e.Lit != nil || ret == nil || len(ret.Results) < 2 {
+		return
+	}
+	last := ret.Results[len(ret.Results)-1]
+	if !isNilIdent(e.Info, last) && !e.IsNil(st, last) {
+		return // not known to be a success return
+	}
+	if st.Ext("csep") == "dangling" {
+		key := fmt.Sprintf("%s return #%d leaves no separator dangling", c.fn, returnOrdinal(e.Func, ret))
+		e.Site("C08/consumed", key, ret, false, "success is reported on a path where a comma was read (at "+st.Ext("csep:at")+"), the production called after it found nothing, and neither the position was put back nor `by` followed: a list ending in a comma is accepted although no node of the tree represents that comma")
+		return
+	}
+	tv := c.tokVar(st)
+	key := fmt.Sprintf("%s return #%d has accounted for the last token read", c.fn, returnOrdinal(e.Func, ret))
+	if tv == "" {
+		e.Site("C08/consumed", key, ret, true, "the last token read was followed by a production, given back, or recorded")
+		return
+	}
+	// nothing was read when next() reported the end of the tokens
+	if okk := st.Ext("ctok:ok"); okk != "" {
+		if f := st.Get(okk); f != nil && f.HasEq && f.Eq == "false" {
+			e.Site("C08/consumed", key, ret, true, "the last read reported the end of the tokens")
+			return
+		}
+	}
+	for _, res := range ret.Results {
+		if c.mentionsTok(e, st, res) {
+			e.Site("C08/consumed", key, ret, true, "the token is returned")
+			return
+		}
+	}
+	e.Site("C08/consumed", key, ret, false, "success is reported straight after reading a token (at "+st.Ext("ctok:at")+") that is neither followed by a production, nor given back, nor recorded anywhere: the token is swallowed, so text that no node of the tree represents (a trailing separator, say) is accepted")
+}
+
+func ruleC08Consumed(p *Program, r *Run) {
+	pkg := p.Parser
+	next := FuncObj(pkg, p.MustFunc(pkg, "parser.next"))
+	n := 0
+	for _, fd := range AllFuncs(pkg) {
+		fo := FuncObj(pkg, fd)
+		if fo == nil || cursorOf(fo) != "parser" || fo == next {
+			continue
+		}
+		sig := fo.Type().(*types.Signature)
+		if sig.Results().Len() < 2 || !isErrorType(sig.Results().At(sig.Results().Len()-1).Type()) {
+			continue
+		}
+		if !p.callsAny(fd, map[*types.Func]bool{next: true}) {
+			continue
+		}
+		n++
+		fn := FuncName(pkg, fd)
+		r.Saw(fn)
+		c := &consumedClient{fn: fn, next: next, nfName: FuncObj(pkg, p.MustFunc(pkg, "isNotFound")).FullName()}
+		if k := p.constNamed(pkg.Types.Scope(), "TokenComma"); k != nil {
+			c.commaKey = constKey(k.Val())
+		}
+		if k := p.constNamed(pkg.Types.Scope(), "TokenBy"); k != nil {
+			c.byKey = constKey(k.Val())
+		}
+		e := NewEngine(p, pkg, fd, c)
+		e.Run(nil)
+		for _, m := range e.Errs {
+			r.Fail("C08/consumed", fn+" engine", "-", m)
+		}
+		e.FlushSites(r)
+	}
+	r.Floor("C08/consumed", 15)
+}
+
+// ---- C06/let-errors: a let statement is rejected only because its value does not compile.
+//
+// Everything that makes a let value invalid (a column reference, an unknown name, a wrong argument count) is found
+// by writing the value in let mode; a let may use every earlier binding, including an earlier binding of its own
+// name. The let case of Compile therefore has no rejection of its own: every failure it returns is the error of a
+// function that leads into the expression writer. An error constructed in the let case itself is a rule the
+// documentation does not have (and that valid programs can run into).
+func ruleC06LetErrors(p *Program, r *Run) {
+	pkg := p.PQL
+	info := pkg.TypesInfo
+	compile := p.MustFunc(pkg, "CompileOptions.Compile")
+	fn := FuncName(pkg, compile)
+	r.Saw(fn)
+	letCase := typeCaseOf(info, compile, "*parser.LetStatement")
+	if letCase == nil {
+		return
+	}
+	reach := p.reachesWriter()
+	propagated := func(x ast.Expr) bool {
+		return p.allDefsAre(x, func(d ast.Expr) bool {
+			call, ok := ast.Unparen(d).(*ast.CallExpr)
+			if !ok {
+				return false
+			}
+			f := Callee(info, call)
+			return f != nil && reach[f]
+		})
+	}
+	n := 0
+	for _, root := range p.regionOf(pkg, letCase) {
+		ast.Inspect(root, func(x ast.Node) bool {
+			if _, nested := x.(*ast.FuncLit); nested {
+				return false
+			}
+			ret, ok := x.(*ast.ReturnStmt)
+			if !ok || len(ret.Results) == 0 {
+				return true
+			}
+			last := ret.Results[len(ret.Results)-1]
+			if t := info.TypeOf(last); t == nil || !(isErrorType(t) || types.Implements(t, errorIface())) || isNilIdent(info, last) {
+				return true
+			}
+			n++
+			key := fmt.Sprintf("%s let case failure #%d (%s)", fn, n, exprStr(last))
+			r.Check(propagated(last), "C06/let-errors", key, p.Pos(ret.Pos()), "the error of the function that wrote the let value", "the let case fails with an error of its own ("+exprStr(last)+") instead of the error found while writing the value: a let is rejected by a rule the documentation does not have - e.g. a let that redefines a name in terms of its earlier binding, which is legitimate scoping")
+			return true
+		})
+	}
+	r.Floor("C06/let-errors", 1)
 }
